@@ -169,6 +169,18 @@ def run(tier):
     # the copy clauses (E531-E533) of function_calls.rs, on the same bookkeeping
     import fcallcheck
     fcallcheck.run(MC)
+    # the call clause (E510-E513, "a pointer parameter requires an explicit &"): use_function as one call
+    import vtcheck
+    import argcheck
+    S8 = vtcheck.Session(PROP, 1)
+    argcheck.run(S8, tier)
+    MC.queries += S8.queries
+    MC.solver_s += S8.solver_s
+    MC.exec_s += S8.exec_s
+    MC.functions += S8.functions
+    MC.used += S8.validated
+    for v in S8.violations:
+        MC.pending.append((v['query'], v['statement'], v['native_request'], v['native_answer']))
     if MC.unconfirmed and not (MC.pending or pending):
         raise Inconclusive('; '.join(MC.unconfirmed[:3]))
     known = known_keys(PROP)
@@ -188,7 +200,7 @@ def run(tier):
         if key in known:
             log('KNOWN-FINDING: property=%s %s' % (PROP, what))
             continue
-        tool = 'fcall-eval' if qname.startswith('copy:') else ('typer-eval' if line.startswith('declared ') else 'mutpass-eval')
+        tool = 'call-eval' if qname.startswith('call:') else 'fcall-eval' if qname.startswith('copy:') else ('typer-eval' if line.startswith('declared ') else 'mutpass-eval')
         rp = write_replay(PROP, key, {'property': PROP, 'query': qname, 'statement': text, 'request': line, 'native': got_, 'tool': tool,
                                       'how': 'echo "%s" | pv_replay %s' % (line, tool)})
         out_v.append((what, rp))
@@ -213,7 +225,7 @@ def run(tier):
         'solver_time_s': round(solver_s, 3), 'symbolic_execution_s': round(exec_s, 3), 'mir_dump_s': round(dump_s, 2),
         'std_models_used': {k: int(v) for k, v in ex.used_models.items()},
         'outside_claim': ['how the arms compose over whole function bodies (each arm is decided on its own, children havoc)',
-                          'E513 and argument checking (use_function, can_hint_missing_address); index expressions inside references in the copy clauses',
+                          'calls with more than %d parameters (the call clause is per position, so this is a model bound only); index expressions inside references in the copy clauses' % (3 if tier == 'quick' else 5),
                           'the run-time non-interference consequence'],
     }
     write_evidence(PROP, tier, 'model_checking', cov, wall,
@@ -234,7 +246,8 @@ def replay_file(path):
         import mutcheck
         import fcallcheck
         tool = r.get('tool', 'mutpass-eval')
-        got = (fcallcheck.native if tool == 'fcall-eval' else (mutcheck.native_typer if tool == 'typer-eval' else mutcheck.native))([r['request']])[0]
+        import argcheck
+        got = (argcheck.native if tool == 'call-eval' else fcallcheck.native if tool == 'fcall-eval' else (mutcheck.native_typer if tool == 'typer-eval' else mutcheck.native))([r['request']])[0]
         log('native mutability pass [%s] -> %s (recorded %s)' % (r['request'], got, r['native']))
         if got == r['native']:
             log('VIOLATION property=%s replay=%s' % (PROP, path))
